@@ -117,7 +117,9 @@ func (c *recCache) Put(p string, t *jet.Template) {
 }
 
 // (a backslash is an ordinary file name character where the path separator is '/')
-var c15Segs = []string{"a", "b", "tpl.jet", "d1", ".", "..", "..", "", "a", "d2", "..\\..\\esc", "b\\c", "..\\a"}
+var c15Segs = []string{"a", "b", "tpl.jet", "d1", ".", "..", "..", "", "a", "d2", "..\\..\\esc", "b\\c", "..\\a",
+	// names that only look special: three and more dots, dots and blanks, a trailing dot or blank, control characters
+	"...", "....", ". .", "x.", "y ", " ", ".. ", "c\x01d", "\x7f", ".\x7f."}
 
 func genC15Spelling(t *rapid.T, label string) string {
 	n := rapid.IntRange(1, 5).Draw(t, label+"N")
@@ -723,7 +725,7 @@ func judgeC15(c c15Case) (v core.Verdict) {
 
 func TestC15(t *testing.T) {
 	core.Run(t, "C15",
-		"name spellings from segments {a,b,tpl.jet,d1,d2,.,..,''} with/without leading and trailing slash, used via GetTemplate/extends/import/include (static and computed)/exec/includeIfExists from a referrer at directory depth 0-3, eight extension lists (dotted and dotless entries), in-memory loader or OSFileSystemLoader with marker files outside its root; recording Loader and Cache wrappers; plus a second spelling of the same canonical name; two referrers whose directories are string prefixes of one another (/d1 + x and /d + 1x) in one Set; includes written in yield content handed to a block that another directory defines; via GetTemplate also 3-5 names looked up at the same time by two goroutines each on one Set; non-trivial = spelling differs from its canonical form at referrer depth>=1, or has more '..' than the depth",
+		"name spellings from segments {a,b,tpl.jet,d1,d2,.,..,''} with/without leading and trailing slash, used via GetTemplate/extends/import/include (static and computed)/exec/includeIfExists from a referrer at directory depth 0-3, eight extension lists (dotted and dotless entries), in-memory loader or OSFileSystemLoader with marker files outside its root; recording Loader and Cache wrappers; plus a second spelling of the same canonical name; two referrers whose directories are string prefixes of one another (/d1 + x and /d + 1x) in one Set; includes written in yield content handed to a block that another directory defines; via GetTemplate also 3-5 names looked up at the same time by two goroutines each on one Set; also: segments that only look special ('...', '....', '. .', a trailing dot or blank, control characters); non-trivial = spelling differs from its canonical form at referrer depth>=1, or has more '..' than the depth",
 		genC15, judgeC15)
 }
 
